@@ -134,6 +134,26 @@ pub fn run(ctx: &mut Ctx) -> (String, Value, Vec<String>) {
                 case.clone(),
             );
         }
+        // the same object obtained through the other constructor, Poisson::approximate, and a
+        // jittered clone (which must answer for the interval lengthened by the jitter)
+        if mean <= 700.0 {
+            evals += 1;
+            match with_timeout(5.0, move || Poisson { rate }.approximate(eps).number_arrivals(d(delta))) {
+                Ok(n2) if n2 as u64 == n => {}
+                Ok(n2) => ctx.violation("arrival::Poisson::approximate#differs-from-ApproximatedPoisson::new", &format!("rate {rate} eps {eps} delta {delta}: Poisson{{rate}}.approximate(eps) answers {n2}, ApproximatedPoisson::new(rate, eps) answers {n}"), "poisson-approx", case.clone()),
+                Err(e) => ctx.violation("arrival::Poisson::approximate#fails", &format!("rate {rate} eps {eps} delta {delta}: {:?}", e), "poisson-approx", case.clone()),
+            }
+            let jit = 3u64;
+            if delta > jit {
+                evals += 1;
+                let dd = delta - jit;
+                match with_timeout(5.0, move || ApproximatedPoisson::new(rate, eps).clone_with_jitter(d(jit)).number_arrivals(d(dd))) {
+                    Ok(n3) if n3 as u64 == n => {}
+                    Ok(n3) => ctx.violation("arrival::ApproximatedPoisson::clone_with_jitter#not-the-quantile-of-the-lengthened-interval", &format!("rate {rate} eps {eps}: jittered clone (jitter {jit}) answers {n3} for delta {dd}, the process answers {n} for delta {delta}"), "poisson-approx", case.clone()),
+                    Err(e) => ctx.violation("arrival::ApproximatedPoisson::clone_with_jitter#fails", &format!("rate {rate} eps {eps} delta {dd}: {:?}", e), "poisson-approx", case.clone()),
+                }
+            }
+        }
         if let Some((r0, e0, d0, n0)) = last {
             if r0 == rate && e0 == eps && d0 <= delta && n0 as u64 > n {
                 ctx.violation("arrival::ApproximatedPoisson::number_arrivals#not-monotone", &format!("rate {rate} eps {eps}: {n0} at delta {d0} but {n} at delta {delta}"), "poisson", case.clone());
@@ -174,7 +194,7 @@ pub fn run(ctx: &mut Ctx) -> (String, Value, Vec<String>) {
     let cov = json!({
         "evaluations": evals,
         "distinct_nontrivial": nontrivial,
-        "rule": "every (rate, epsilon, delta) grid point with rate*delta in {0..50 densely, 60 ... 5000 sparsely}: number_arrivals (watchdog-guarded) vs the smallest n with CDF(n) >= 1-eps under an independent log-space pmf with compensated summation (tolerance band 1e-9 around the threshold); pmf compared at 5 points each; non-trivial = mean >= 1",
+        "rule": "every (rate, epsilon, delta) grid point with rate*delta in {0..50 densely, 60 ... 5000 sparsely}: number_arrivals (watchdog-guarded) vs the smallest n with CDF(n) >= 1-eps under an independent log-space pmf with compensated summation (tolerance band 1e-9 around the threshold); pmf compared at 5 points each; the object obtained through Poisson::approximate and a jittered clone must agree; non-trivial = mean >= 1",
         "grid_points": g.len(),
         "samples": samples,
         "exhaustive": true,
@@ -194,6 +214,13 @@ pub fn replay(kind: &str, case: &Value) -> bool {
         return (p - want).abs() > 1e-9 * want.max(1e-300) && !(want < 1e-290 && p.abs() < 1e-280);
     }
     let eps = case["epsilon"].as_f64().unwrap();
+    if kind == "poisson-approx" {
+        let a = with_timeout(20.0, move || ApproximatedPoisson::new(rate, eps).number_arrivals(d(delta)));
+        let b = with_timeout(20.0, move || Poisson { rate }.approximate(eps).number_arrivals(d(delta)));
+        let c = if delta > 3 { with_timeout(20.0, move || ApproximatedPoisson::new(rate, eps).clone_with_jitter(d(3)).number_arrivals(d(delta - 3))) } else { a.clone() };
+        println!("replay: new {:?}, approximate {:?}, jittered clone {:?}", a, b, c);
+        return a.is_err() || a != b || a != c;
+    }
     match with_timeout(20.0, move || ApproximatedPoisson::new(rate, eps).number_arrivals(d(delta))) {
         Ok(n) => {
             if delta == 0 {
